@@ -217,6 +217,10 @@ func (na *plainMap__Assembler) AssignNode(v datamodel.Node) error {
 	if v.Kind() != datamodel.Kind_Map {
 		return datamodel.ErrWrongKind{TypeName: "map", MethodName: "AssignNode", AppropriateKind: datamodel.KindSet_JustMap, ActualKind: v.Kind()}
 	}
+	// Allocate storage space, as BeginMap would (the entries are added through our own MapAssembler methods).
+	if _, err := na.BeginMap(v.Length()); err != nil {
+		return err
+	}
 	itr := v.MapIterator()
 	for !itr.Done() {
 		k, v, err := itr.Next()
